@@ -12,7 +12,7 @@ def sh(cmd, **kw):
 def main():
     pid, k = sys.argv[1], sys.argv[2]
     checks = sys.argv[3:] or [pid]
-    src = "/tmp/seed_out/%s" % pid
+    src = "%s/%s" % (os.environ.get("SEED_SRC", "/tmp/seed_out"), pid)
     patch, demo, notes = (os.path.join(src, f % k) for f in ("patch%s.diff", "demo%s.py", "notes%s.md"))
     for f in (patch, demo):
         if not os.path.exists(f):
@@ -64,7 +64,7 @@ def main():
         sh(["git", "-C", "/repo", "worktree", "remove", "--force", wt])
     if not ok:
         return 1
-    dst = "/verif/seeded/%s_%s" % (pid, k)
+    dst = "/verif/seeded/%s_%s%s" % (pid, os.environ.get("SEED_TAG", ""), k)
     os.makedirs(dst, exist_ok=True)
     shutil.copy(patch, os.path.join(dst, "patch.diff"))
     shutil.copy(demo, os.path.join(dst, "demo.py"))
